@@ -13,3 +13,6 @@ import common
 common.build_harness("asan")
 print("setup ok")
 PY
+# code-level stage: serialise the current sources into Gen/Cir.lean and build the refinement proofs
+python3 tools/cir.py >/dev/null
+(cd lean && lake build O1722.Refine.Props)
